@@ -1,4 +1,5 @@
 import Ogen.SecurityHandler_proof
+import Ogen.Generated.Facts_tmpl
 /-!
 # C09 — security requirements
 
@@ -10,6 +11,14 @@ found in the request is exercised on the implementation through the generated cl
 -/
 namespace C09
 open Sec
+
+/-- **(regenerated facts) the template's two bit-set statements are the ones the model is written from**:
+    scheme `idx` sets bit `idx mod 8` of byte `idx div 8` (`Sec.set`), and a requirement is *not* satisfied
+    when `satisfied[i] & mask != mask` for some byte (`Sec.covers` is the negation over all bytes) — read off
+    the text of `gen/_template/handlers.tmpl` on every run -/
+theorem facts_mask_statements :
+    Facts.Tmpl.securityTest = "if satisfied[i] & mask != mask {" ∧
+    Facts.Tmpl.securitySetBit = "satisfied[{{ div $idx 8 }}] |= 1 << {{ mod $idx 8 }}" := by decide
 
 /-- mask arithmetic for **any** number of schemes (across byte boundaries): a requirement's mask is covered
     by `satisfied` iff every scheme it names has its bit set -/
